@@ -142,7 +142,7 @@ func modeSharedLO(seed int64, n, threads int) {
 		after = "nonnil"
 	}
 	emit(map[string]interface{}{
-		"mode": "sharedlo", "seed": seed, "threads": threads, "calls": tot.calls,
+		"mode": "sharedlo", "seed": seed, "pred_kind_strict": predKindStrict, "threads": threads, "calls": tot.calls,
 		"failed_latest_and_filter": tot.failed, "other_errors": tot.other,
 		"wrong_results": tot.wrong, "panics": tot.panics, "not_closed": tot.notClosed,
 		"options_after": after, "graph_triples": len(content),
